@@ -171,6 +171,18 @@ func (c *Core) do(ctx context.Context, id Ident, a M) (any, error) {
 		h := GRPCAcceptServe(b, uint32(Int(a, "id")), Str(a, "nonce"))
 		srvHandles.Store(fmt.Sprintf("%s/%d", c.Instance, Int(a, "id")), h)
 		return M{}, nil
+	case "grpc-accept-raw":
+		// a plain Accept whose listener the plugin keeps open until it exits
+		b := c.GRPC()
+		if b == nil {
+			return nil, errors.New("no grpc broker")
+		}
+		ln, err := b.Accept(uint32(Int(a, "id")))
+		if err != nil {
+			return nil, err
+		}
+		srvHandles.Store(fmt.Sprintf("%s/raw/%d", c.Instance, Int(a, "id")), ln)
+		return M{"addr": ln.Addr().String()}, nil
 	case "grpc-stop":
 		if h, ok := srvHandles.LoadAndDelete(fmt.Sprintf("%s/%d", c.Instance, Int(a, "id"))); ok {
 			h.(*AcceptHandle).Stop()
